@@ -208,10 +208,10 @@ var (
 	_ driver.StmtQueryContext = (*stmt)(nil)
 )
 
-func (s *stmt) Close() error                                 { s.r.add("stmtclose"); return nil }
-func (s *stmt) NumInput() int                                { return -1 }
-func (s *stmt) Exec([]driver.Value) (driver.Result, error)   { return s.r.doExec() }
-func (s *stmt) Query([]driver.Value) (driver.Rows, error)    { return s.r.doQuery() }
+func (s *stmt) Close() error                               { s.r.add("stmtclose"); return nil }
+func (s *stmt) NumInput() int                              { return -1 }
+func (s *stmt) Exec([]driver.Value) (driver.Result, error) { return s.r.doExec() }
+func (s *stmt) Query([]driver.Value) (driver.Rows, error)  { return s.r.doQuery() }
 func (s *stmt) ExecContext(context.Context, []driver.NamedValue) (driver.Result, error) {
 	return s.r.doExec()
 }
